@@ -12,6 +12,7 @@ import (
 	"math"
 	"sort"
 	"strconv"
+	"strings"
 	"sync"
 	"sync/atomic"
 	"testing"
@@ -104,7 +105,10 @@ func c13Keys(n int, seed int64) []string {
 func c13MakeNodes(r interface{ Intn(int) int }, n int, salt int) []any {
 	nodes := make([]any, n)
 	for i := range nodes {
-		switch r.Intn(6) {
+		switch r.Intn(7) {
+		case 6:
+			// a long representation whose distinguishing part lies beyond the first 64 bytes
+			nodes[i] = fmt.Sprintf("svc.%070d.cluster.local:%d/%d", salt, 6000+i, r.Intn(1000))
 		case 3:
 			nodes[i] = salt*1000 + i*37 + r.Intn(30)
 		case 4:
@@ -118,6 +122,11 @@ func c13MakeNodes(r interface{ Intn(int) int }, n int, salt int) []any {
 		default:
 			nodes[i] = &c13StringerNode{name: fmt.Sprintf("%d-%d-%d", salt, i, r.Intn(1000))}
 		}
+	}
+	// node identity is exact: in a third of the sets the last two nodes differ only in letter case
+	if n >= 2 && r.Intn(3) == 0 {
+		nodes[n-2] = fmt.Sprintf("Shard-%d-EU:%d", salt, 7000+n)
+		nodes[n-1] = strings.ToLower(nodes[n-2].(string))
 	}
 	return nodes
 }
